@@ -11,14 +11,19 @@ PRELUDE = r'''
 use crate::vm::heap::Heap; use crate::vm::stack::Stack;
 use crate::vm::continuation::{cont_stack, cont_regs, cont_wf};
 // ---------------------------------------------------------------- assumed contracts of what run_one calls
-/// the opcode at %ip
-pub uninterp spec fn next_op(vm: Vm) -> OpCode;
-/// fetching the opcode moves %ip.1 and nothing else
-pub assume_specification [Vm::read_opcode] (vm: &mut Vm) -> (r: Result<OpCode, Error>)
-    ensures r matches Ok(op) ==> op == next_op(*old(vm)),
-            final(vm).stack_spec() == old(vm).stack_spec(), final(vm).heap_spec() == old(vm).heap_spec(), final(vm).globenv_spec() == old(vm).globenv_spec(), final(vm).acc_spec() == old(vm).acc_spec(),
-            final(vm).regs().0 == old(vm).regs().0, final(vm).regs().2 == old(vm).regs().2, final(vm).regs().1.0 == old(vm).regs().1.0,
-            r is Ok ==> final(vm).regs().1.1 == old(vm).regs().1.1 + 1;
+/// the opcode at %ip: the cell of the current code object that %ip.1 addresses, if it is an opcode
+pub uninterp spec fn no_opcode() -> OpCode;
+pub open spec fn next_op(vm: Vm) -> OpCode {
+    if vm.regs().1.1 < cur_lambda(vm).bc@.len() { match cur_lambda(vm).bc@[vm.regs().1.1 as int] { VCell::OpCode(op) => op, _ => no_opcode() } } else { no_opcode() }
+}
+/// one-line matches / reads (vcell.rs, lambda.rs)
+pub assume_specification [VCell::as_opcode] (v: &VCell) -> (r: Result<OpCode, Error>)
+    ensures *v matches VCell::OpCode(op) ==> r == Ok::<OpCode, Error>(op), !(*v is OpCode) ==> r is Err;
+pub assume_specification [Lambda::get] (l: &Lambda, i: usize) -> (r: Option<&VCell>)
+    ensures i < l.bc@.len() ==> (r matches Some(c) && *c == l.bc@[i as int]), i >= l.bc@.len() ==> r is None;
+/// std: a Vec of a non-zero-sized type never holds more than isize::MAX elements
+#[verifier::external_body]
+pub proof fn axiom_bc_len(l: Lambda) ensures l.bc@.len() <= isize::MAX {}
 pub assume_specification [Vm::trace_instruction] (vm: &Vm);
 pub assume_specification [Vm::read_operand] (vm: &mut Vm) -> (r: Result<VCell, Error>);
 pub assume_specification [Vm::load_operand] (vm: &mut Vm) -> (r: Result<VCell, Error>);
@@ -34,7 +39,8 @@ pub assume_specification<T: Into<VCell> + Clone> [Heap::maybe_put] (h: &mut Heap
 pub assume_specification [Heap::get_at_index] (h: &Heap, i: usize) -> (r: &VCell) ensures *r == heap_deref(*h, VCell::Ptr(i));
 pub assume_specification [Heap::get_as_cell] (h: &Heap, v: &VCell) -> (r: Cell);
 pub assume_specification [VCell::as_vector] (v: &VCell) -> (r: Result<&crate::vm::vector::Vector, Error>);
-pub assume_specification [VCell::as_lambda] (v: &VCell) -> (r: Result<&Lambda, Error>);
+pub assume_specification [VCell::as_lambda] (v: &VCell) -> (r: Result<&Lambda, Error>)
+    ensures *v matches VCell::Lambda(l) ==> (r matches Ok(x) && *x == *l), !(*v is Lambda) ==> r is Err;
 pub assume_specification [VCell::as_lexical_env] (v: &VCell) -> (r: Result<&crate::vm::environment::LexicalEnvironment, Error>);
 /// one-line matches in vcell.rs
 pub assume_specification [VCell::as_ip] (v: &VCell) -> (r: Result<(usize, usize), Error>)
@@ -48,10 +54,12 @@ pub assume_specification [crate::vm::vector::Vector::push] (v: &crate::vm::vecto
 pub assume_specification [Vm::build_closure_environment] (vm: &Vm, envmap: &crate::vm::environment::EnvironmentMap) -> (r: Result<crate::vm::environment::LexicalEnvironment, Error>);
 pub assume_specification [Vm::build_lexical_environment] (vm: &Vm, lambda: &Lambda, p: usize, e: &crate::vm::environment::LexicalEnvironment) -> (r: Result<crate::vm::environment::LexicalEnvironment, Error>);
 pub assume_specification [crate::vm::vcell::BuiltInProc::eval] (p: &crate::vm::vcell::BuiltInProc, vm: &mut Vm) -> (r: Result<VCell, Error>);
-/// the code object %ip points into: determined by the heap and %ip.0
-pub uninterp spec fn lambda_at(h: Heap, ip0: usize) -> Lambda;
+/// the code object %ip points into: the Lambda cell %ip.0 designates
+pub uninterp spec fn no_lambda() -> Lambda;
+pub open spec fn lambda_at(h: Heap, ip0: usize) -> Lambda { match heap_deref(h, VCell::Ptr(ip0)) { VCell::Lambda(l) => *l, _ => no_lambda() } }
 pub open spec fn cur_lambda(vm: Vm) -> Lambda { lambda_at(vm.heap_spec(), vm.regs().1.0) }
-pub assume_specification [Vm::lambda] (vm: &Vm) -> (r: &Lambda) ensures *r == cur_lambda(*vm);
+/// %ip.0 designates a code object (what CALL / TCALL / RET establish; Vm::lambda panics otherwise)
+pub open spec fn code_ready(vm: Vm) -> bool { heap_deref(vm.heap_spec(), VCell::Ptr(vm.regs().1.0)) is Lambda }
 /// Heap::get / get_at_index answer a cell that is not a pointer with that very cell (heap.rs: `_ => vcell`)
 #[verifier::external_body]
 pub proof fn axiom_deref_immediate(h: Heap, c: VCell) ensures !(c is Ptr) ==> heap_deref(h, c) == c {}
@@ -169,6 +177,7 @@ pub open spec fn call_ready(vm: Vm) -> bool {
     &&& (next_op(vm) is Ret ==> ret_frame(vm))
     &&& (next_op(vm) is Enter ==> vm.stack_spec().sp_spec() >= 3)
     &&& vm.regs().1.1 < usize::MAX
+    &&& code_ready(vm)
     &&& (callee_continuation(vm) matches Some(c) ==> cont_wf(c) && cont_stack(c).cells().len() <= vm.stack_spec().cells().len())
 }
 /// what TCALL to a procedure leaves: the frame is rebuilt in place from its first argument slot (base = bp - m + 1)
@@ -193,6 +202,21 @@ UNITS = [{
     'uses_types': ['Cell', 'Error', 'Heap', 'GlobalEnvironment', 'StackTrace', 'VCell', 'OpCodeT', 'Lambda', 'RcDeref', 'RcAsRef', 'Vector', 'LexicalEnvironment', 'EnvironmentMap', 'Continuation', 'BuiltInProc'],
     'prelude': PRELUDE,
     'fns': {
+        # fetching the opcode moves %ip.1 and nothing else (verified; group run assumes this text over its own views)
+        'impl Vm::lambda': {
+            'props': P + ['C05', 'C06'],
+            'requires': ['code_ready(*self)'],
+            'ensures': [(P + ['C05'], '*r == cur_lambda(*self)')],
+        },
+        'impl Vm::read_opcode': {
+            'props': P + ['C05', 'C06'],
+            'requires': ['code_ready(*old(self))'],
+            'body_start': 'proof { axiom_bc_len(cur_lambda(*old(self))); }',
+            'ensures': [(P + ['C05'], 'r matches Ok(op) ==> op == next_op(*old(self))'),
+                        (P + ['C05'], 'final(self).stack_spec() == old(self).stack_spec() && final(self).heap_spec() == old(self).heap_spec() && final(self).globenv_spec() == old(self).globenv_spec() && final(self).acc_spec() == old(self).acc_spec()'),
+                        (P + ['C05'], 'final(self).regs().0 == old(self).regs().0 && final(self).regs().2 == old(self).regs().2 && final(self).regs().1.0 == old(self).regs().1.0'),
+                        (P + ['C05'], 'r is Ok ==> final(self).regs().1.1 == old(self).regs().1.1 + 1')],
+        },
         # Vm::pop: the popped cell read through the heap (verified here; the other groups assume this text)
         'impl Vm::pop': {
             'props': P + ['C05', 'C06'],
